@@ -148,6 +148,25 @@ def mutants_of_line(l):
     m = re.match(r"^(\s*)(self\.[\w\.]+\(.*\))\?;\s*$", code)
     if m:
         outs.append(("QMARK", "%slet _ = %s;" % (m.group(1), m.group(2)) + tail))
+    # negate a whole if / while condition
+    m = re.match(r"^(\s*(?:\} else )?(?:if|while) )(?!let )(.+)( \{\s*)$", code)
+    if m:
+        outs.append(("NEGCOND", "%s!(%s)%s" % (m.group(1), m.group(2), m.group(3)) + tail))
+    # range end inclusive / exclusive
+    sub_each(r"\.\.=", "..", "RANGE", True)
+    sub_each(r"(?<![\.=])\.\.(?![\.=])(?=[\w(])", "..=", "RANGE", True)
+    # sibling methods
+    for a_, b_ in (("trim_start_matches", "trim_end_matches"), ("trim_end_matches", "trim_start_matches"), ("starts_with", "ends_with"), ("ends_with", "starts_with"),
+                   ("head_skip_and_spaces", "head_skip_after_spaces"), ("head_skip_after_spaces", "head_skip_and_spaces"), (".first()", ".last()"), (".last()", ".first()"),
+                   ("unwrap_or_default", "unwrap"), (".iter()", ".iter().rev()"), (".into_iter()", ".into_iter().rev()"), ("chars().count()", "len()"),
+                   ("is_alphanumeric", "is_alphabetic"), ("is_whitespace", "is_ascii_whitespace"), ("to_string()", "to_string().to_uppercase()"),
+                   ("wrapping_add", "wrapping_mul"), (".take()", ".clone()"), ("position(", "rposition(")):
+        sub_each(a_, b_, "CALLSIB")
+    # keyword tables: tweak a string literal (only short literals that look like keywords)
+    for m in re.finditer(r'"((?:[^"\\]|\\.){1,12})"', code):
+        if "=>" in code or ":" in code.split('"')[0][-14:] or "(" in code.split('"')[0][-3:]:
+            outs.append(("STR", code[:m.start()] + '"' + m.group(1) + 'x"' + code[m.end():] + tail))
+            break
     st = code.strip()
     if re.match(r"^(self|out|s|terms|target|vec|set|result|name|name_buffer|value_buffer|buffer)\b[\w\.\(\)]*\.\w+\(.*\);$", st) or re.match(r"^\w+!\(.*\);$", st) is None and re.match(r"^self\.\w+\(.*\)\?;$", st):
         outs.append(("DEL", re.sub(r"\S.*$", "();", code, count=1) + tail))
@@ -170,6 +189,22 @@ def gen():
             for op, new in mutants_of_line(l):
                 mid = hashlib.sha1(("%s:%d:%s" % (rel, i, new)).encode()).hexdigest()[:10]
                 ms.append({"id": mid, "file": rel, "line": i + 1, "op": op, "old": l, "new": new})
+        # two-line operators, encoded as a replacement of the first line by "second\nfirst" / of an arm body by the previous arm's body
+        idx = dict(cl)
+        for i, l in cl:
+            j = i + 1
+            if j in idx:
+                a_, b_ = strip_comment(l), strip_comment(idx[j])
+                ia, ib = len(a_) - len(a_.lstrip()), len(b_) - len(b_.lstrip())
+                if ia == ib and a_.strip().endswith(";") and b_.strip().endswith(";") and not a_.strip().startswith(("let ", "use ", "return", "//")) \
+                        and not b_.strip().startswith(("let ", "use ", "//")) and a_.strip() != b_.strip():
+                    mid = hashlib.sha1(("%s:%d:swap" % (rel, i)).encode()).hexdigest()[:10]
+                    ms.append({"id": mid, "file": rel, "line": i + 1, "op": "STMTSWAP", "old": l, "new": idx[j] + "\n" + l, "drop_next": True})
+                ma = re.match(r"^(\s*)([^=]+?) => ([^{].*),\s*$", a_)
+                mb = re.match(r"^(\s*)([^=]+?) => ([^{].*),\s*$", b_)
+                if ma and mb and ma.group(1) == mb.group(1) and ma.group(3) != mb.group(3):
+                    mid = hashlib.sha1(("%s:%d:armcopy" % (rel, j)).encode()).hexdigest()[:10]
+                    ms.append({"id": mid, "file": rel, "line": j + 1, "op": "ARMCOPY", "old": idx[j], "new": "%s%s => %s," % (mb.group(1), mb.group(2), ma.group(3))})
     json.dump(ms, open(os.path.join(OUT, "mutants.json"), "w"), ensure_ascii=False, indent=0)
     by = {}
     for m in ms:
@@ -185,6 +220,8 @@ def make_copy(m, tmp):
     if lines[m["line"] - 1] != m["old"]:
         return None
     lines[m["line"] - 1] = m["new"]
+    if m.get("drop_next"):
+        del lines[m["line"]]
     open(p, "w", encoding="utf-8").write("\n".join(lines))
     return repo
 
